@@ -31,6 +31,7 @@ var c20Ratios = []image.YCbCrSubsampleRatio{
 
 var c20Origins = []image.Point{{0, 0}, {8, 8}, {16, 0}, {3, 5}}
 var c20StrideExtra = []int{0, 8, 3}
+var c20CStrideExtra = []int{0, 16, 3}
 
 type ycContent struct {
 	name string
@@ -94,7 +95,7 @@ func (m *ycImage) free() {
 }
 
 // buildYCbCr makes an n x n YCbCr image with tight planes in guard arenas.
-func buildYCbCr(n int, ratio image.YCbCrSubsampleRatio, org image.Point, strideExtra int, endFlush bool, c ycContent) *ycImage {
+func buildYCbCr(n int, ratio image.YCbCrSubsampleRatio, org image.Point, strideExtra, cStrideExtra int, endFlush bool, c ycContent) *ycImage {
 	r := image.Rectangle{org, org.Add(image.Pt(n, n))}
 	probe := &image.YCbCr{SubsampleRatio: ratio, Rect: r, YStride: n + strideExtra}
 	// chroma geometry from the image type's own addressing
@@ -107,8 +108,8 @@ func buildYCbCr(n int, ratio image.YCbCrSubsampleRatio, org image.Point, strideE
 	default:
 		cw = (r.Max.X+3)/4 - r.Min.X/4
 	}
-	probe.CStride = cw
-	if strideExtra != 0 {
+	probe.CStride = cw + cStrideExtra
+	if strideExtra != 0 && cStrideExtra == 0 {
 		probe.CStride = cw + 1
 	}
 	maxY, maxC := 0, 0
@@ -168,13 +169,14 @@ func c20Harness(n int, contents []ycContent, withHash bool) mc.Harness {
 		ri := x.All("subsampling", len(c20Ratios))
 		oi := x.All("origin", len(c20Origins))
 		si := x.All("luma-stride", len(c20StrideExtra))
+		csi := x.All("chroma-stride", len(c20CStrideExtra))
 		endFlush := x.All("plane-placement", 2) == 1
 		c := contents[ci]
-		where := fmt.Sprintf("%dx%d %s origin %v YStride=w+%d planes %s, %s", n, n, ratioName(c20Ratios[ri]), c20Origins[oi], c20StrideExtra[si],
+		where := fmt.Sprintf("%dx%d %s origin %v YStride=w+%d CStride=cw+%d planes %s, %s", n, n, ratioName(c20Ratios[ri]), c20Origins[oi], c20StrideExtra[si], c20CStrideExtra[csi],
 			map[bool]string{false: "start-flush", true: "end-flush"}[endFlush], c.name)
 		x.Note("image", where)
-		x.InputID = hashBytes([]byte{byte(n >> 6), byte(ci), byte(ri), byte(oi), byte(si), b2i(endFlush), 0x20})
-		m := buildYCbCr(n, c20Ratios[ri], c20Origins[oi], c20StrideExtra[si], endFlush, c)
+		x.InputID = hashBytes([]byte{byte(n >> 6), byte(ci), byte(ri), byte(oi), byte(si), byte(csi), b2i(endFlush), 0x20})
+		m := buildYCbCr(n, c20Ratios[ri], c20Origins[oi], c20StrideExtra[si], c20CStrideExtra[csi], endFlush, c)
 		defer m.free()
 		ref := c20Ref(m.img)
 		d32 := guardmem.Alloc(4*n*n, false, 32)
@@ -270,7 +272,7 @@ func init() {
 			cs := c20Contents()
 			sp := []mc.Space{
 				{Name: "layouts-64", H: c20Harness(64, cs, true), NoLevels: true, Isolate: true, SplitDepth: 1,
-					Rule: fmt.Sprintf("64x64 YCbCr images: %d plane contents (125 constant triples, ramps, distinct-per-sample, per-lane extremes, fixed noise) x 6 subsampling ratios x 4 origins x luma stride {w, w+8, w+3} x planes start-/end-flush against guard pages; ImageToGray, AsmYCbCrToGray, the YCbCrToGray dispatch variable (within 2.0), Rgb2GrayFast and the portable kernel (exact) vs the documented luminance of the pixel's own samples; canaries around destination and planes; NewPHash64Alt with dispatching vs portable conversion", len(cs))},
+					Rule: fmt.Sprintf("64x64 YCbCr images: %d plane contents (125 constant triples, ramps, distinct-per-sample, per-lane extremes, fixed noise) x 6 subsampling ratios x 4 origins x luma stride {w, w+8, w+3} x chroma stride {cw, cw+16, cw+3} x planes start-/end-flush against guard pages; ImageToGray, AsmYCbCrToGray, the YCbCrToGray dispatch variable (within 2.0), Rgb2GrayFast and the portable kernel (exact) vs the documented luminance of the pixel's own samples; canaries around destination and planes; NewPHash64Alt with dispatching vs portable conversion", len(cs))},
 			}
 			if tier == "thorough" {
 				var sub []ycContent
